@@ -208,7 +208,7 @@ def ref_in(A, ex):
 
 
 TARGETS = [
-    dict(name="val_index", props=["C06", "C01"], func="index", self_ty="CelValue", cfg=VAL_CFG, make_args=args_index, check=check_value(ref_index, "index"),
+    dict(name="val_index", props=["C06", "C08", "C01"], func="index", self_ty="CelValue", cfg=VAL_CFG, make_args=args_index, check=check_value(ref_index, "index"),
          what="l[i] for lists of 0..=3 elements and every int / uint / other index: i-th element, (size+i)-th for negative i, error outside; m[k]: stored value or an absent-field failure; failing operands propagate",
          bounds={"list_len": f"0..={LIST_BOUND}", "index": "all i64 / all u64 / every other kind"}),
     dict(name="val_in_list", props=["C06", "C01"], func="in_", self_ty="CelValue", cfg=VAL_CFG, make_args=args_in, check=check_value(ref_in, "in"),
